@@ -23,7 +23,7 @@ import z3
 from . import values as V
 from .extract import ExtractionError, Repo
 from .interp import BoundMethod, Ctx, ForallP, Interp, ModelObject, Obj, PyFunc, ReturnSignal
-from .solve import Verdict, check_sat, discharge
+from .solve import Verdict, check_sat, discharge, reset_ack
 from .values import Arr, Filtered, PathInfeasible, PyRaise, Unsupported
 
 
@@ -246,12 +246,15 @@ def run_unit(spec: Spec, repo: Repo | None = None, timeout_s=20.0, want_smt2=Fal
         specs[q2] = s.as_callee() if isinstance(s, Spec) else s
     pending = [[]]
     npath = 0
+    nsmt = 0
     while pending:
         dec = pending.pop()
         if npath >= spec.max_paths:
             res.unsupported = f"more than {spec.max_paths} paths"
             break
         V.AXIOMS.clear()
+        V.APPS.clear()
+        reset_ack()
         cx = Ctx(repo, decisions=dec, specs=specs, inline_ok=set(spec.inline) if spec.inline is not None else None)
         interp = Interp(cx)
         try:
@@ -305,6 +308,9 @@ def run_unit(spec: Spec, repo: Repo | None = None, timeout_s=20.0, want_smt2=Fal
         axioms = list(V.AXIOMS)
         for ob in cx.obls:
             v = discharge(ob, axioms, timeout_s=timeout_s, want_smt2=want_smt2)
+            if want_smt2 == "samples" and v.status == "discharged" and v.backend != "simplifier" and nsmt < 2:
+                nsmt += 1
+                v = discharge(ob, axioms, timeout_s=timeout_s, want_smt2=True)
             if DEBUG:
                 print(f"   [{spec.unit_name()} path {npath}] {v.status} {v.backend} {v.time_s:.2f}s {ob.kind} {ob.label[:100]}", flush=True)
             res.obligations.append(ObRecord(spec.unit_name(), ob.label, ob.kind, ob.loc, npath, v))
@@ -365,6 +371,8 @@ def run_lemma(lemma: Lemma, timeout_s=20.0, want_smt2=False) -> UnitResult:
     t0 = time.time()
     res = UnitResult("lemma:" + lemma.name, "")
     V.AXIOMS.clear()
+    V.APPS.clear()
+    reset_ack()
     try:
         items = lemma.formula()
     except Exception as e:  # noqa: BLE001
